@@ -54,6 +54,7 @@ class C08(HistoryProperty):
     def gen_case(self, rng, tier):
         cfg = gen.swarm_cfg(rng, off=("shape_change",), on=("presets", "default_presets", "dataset", "derive", "withopts", "map", "dsclass"))
         cfg["partial_section_preset"] = rng.random() < 0.8
+        cfg["wrapping_datasets"] = rng.random() < 0.5  # dataset(<expression>, options=..., default_options=...)
         cfg["mutating_bodies"] = rng.random() < 0.4  # bodies that work in place on a section / list taken from the options
         if cfg["mutating_bodies"]:
             cfg["whole_section"] = cfg["lists"] = True
